@@ -248,7 +248,7 @@ def d2_single_reader(ctx, reader):
                 ctx.decide(ok, 'R-FLOW', 'D2', f, n, f'descriptor-field::{n.slice.value}',
                            f'{f.qualname} takes descriptor field {n.slice.value!r} from the validated dictionary',
                            detail='descriptor field does not come from the validating reader')
-    ctx.floor('C18 descriptor field uses in Array', users, 5)
+    ctx.floor('C18 descriptor field uses in Array', users, 3)
 
 
 def d5_open(ctx):
